@@ -114,11 +114,15 @@ Key(e, what, c) == [regs |-> reg[e], cache |-> cfg[e].cache, debug |-> cfg[e].de
 
 Op(name, e, args) == [op |-> name, e |-> e] @@ args
 
+Routes == <<"string", "template", "compiled", "data">>
 Register(e, n, s) ==
     /\ cfg[e].cache                               \* registering while the cache is off: see DESIGN 5.1 (not determined)
     /\ reg' = IF IsSyntaxError(s) THEN reg ELSE [reg EXCEPT ![e][n] = s]
     /\ tree' = IF IsSyntaxError(s) THEN tree ELSE [tree EXCEPT ![e][n] = "intact"]
-    /\ hist' = Append(hist, Op("reg", e, [n |-> n, s |-> s, ok |-> ~IsSyntaxError(s)]))
+    \* the route: which of the engine's four ways of putting a source under a name this registration takes (RegisterString;
+    \* ParseTemplate + RegisterTemplate; RegisterCompiledTemplate; LoadFromCompiledData).  The state change is the same for all
+    \* four; the route is fixed by the position in the history, so that every route occurs in every surrounding
+    /\ hist' = Append(hist, Op("reg", e, [n |-> n, s |-> s, ok |-> ~IsSyntaxError(s), route |-> Routes[(Len(hist) % 4) + 1]]))
     /\ UNCHANGED <<cfg, handles>>
 ParseOnly(e, s) ==
     /\ hist' = Append(hist, Op("parse", e, [s |-> s, keep |-> FALSE, ok |-> ~IsSyntaxError(s)]))
